@@ -200,8 +200,22 @@ Definition replace_ok (old new : cert) (next : state) : bool :=
 Definition add_ok (prev : state) (c : cert) (next : state) : bool :=
   readd_ok prev c next && amem (c_hash c) (cache next).
 
+(** removals (by copy, by hash, by subject): afterwards exactly the cached certificates selected by
+    [gone] have disappeared, every other entry is as it was *)
+Definition removal_ok (gone : hash -> cert -> bool) (prev next : state) : bool :=
+  forallb (fun kv => match alookup (fst kv) (cache prev) with
+                     | Some x => cert_eqb x (snd kv) && negb (gone (fst kv) x) | None => false end) (cache next) &&
+  forallb (fun kv => gone (fst kv) (snd kv) || amem (fst kv) (cache next)) (cache prev).
+(** RemoveManaged(subjects): the managed certificates listing a subject, of that issuer if one is given *)
+Definition managed_gone (sj : list (name * str)) (k : hash) (c : cert) : bool :=
+  c_managed c &&
+  existsb (fun p => mem_str (fst p) (c_names c) && (is_nil (snd p) || str_eqb (c_issuer c) (snd p))) sj.
+
 Definition step_spec_b (prev : state) (w : wstep) (next : state) : bool :=
   match w with
+  | WOp (ORemoveCert c) => removal_ok (fun k _ => str_eqb k (c_hash c)) prev next
+  | WOp (ORemoveHashes hs) => removal_ok (fun k _ => mem_str k hs) prev next
+  | WOp (ORemoveManaged sj) => removal_ok (managed_gone sj) prev next
   | WOp (OAdd c _) => add_ok prev c next
   | WOp (OReplace old new _) => replace_ok old new next
   | WOp (OWriteBack c) => writeback_ok same_but_ocsp [c_hash c] prev next
